@@ -14,10 +14,10 @@ CLAIMED = {
                 "stand-in table: every documented alias of every quantity x leading hyphen/minus sign x three letter cases x unit suffixes x all six "
                 "column orders (cartesian and polar layouts) must be detected in its column with its sign flag; with all cell values symbolic, 1..2 (3) "
                 "consecutive sweeps of symbolic frequencies (ascending or descending, a single sweep may have one point), sign-inverted imaginary/"
-                "phase columns, degrees or radians, the returned data sets carry exactly the written frequencies and impedances with the documented "
+                "phase columns, degrees or radians, numeric cells or decimal-comma text cells (none / all / single columns), the returned data sets carry exactly the written frequencies and impedances with the documented "
                 "sign, one per sweep, in order; the table emitted by to_dataframe parses back to the same spectrum.",
         "design_ref": "DESIGN.md section 4, C06",
-        "note": "PARTIAL: the text layer (pandas.read_csv/to_csv, separator sniffing, decimal commas), the instrument layouts (.mpt .i2b .P00 .dfr "
+        "note": "PARTIAL: the text layer (pandas.read_csv/to_csv, separator sniffing, the characters of decimal-comma numerals), the instrument layouts (.mpt .i2b .P00 .dfr "
                 ".dta .z) and the CLI table are file I/O / C parsers and are not claimed; cmath.rect is a contract stub; headers are alias + a suffix "
                 "from a fixed list",
     },
@@ -42,7 +42,9 @@ CLAIMED = {
                 "from the unmasked input frequencies, residuals from (Z_data-Z_model)/|Z_data|, pseudo chi-squared from the sum of squared residual "
                 "moduli, reported impedances from the attached circuit's impedance; the solver terms of all result fields are scanned for variables "
                 "of masked points (non-interference); the input data set and circuit must be unchanged. For fit_circuit also: values within limits, "
-                "fixed parameters unchanged, constraint expressions hold, parameter table equals the returned circuit.",
+                "fixed parameters unchanged, constraint expressions hold, parameter table equals the returned circuit; the same when the optimiser's "
+                "last evaluation is not at the point it reports (probe) and when several methods run one after the other in the calling process "
+                "(every fit starts from the values passed in; table, chi-squared and circuit belong to the same fit).",
         "design_ref": "DESIGN.md section 4, C08",
         "note": "numerical stages are stubs (lmfit.minimize by its contract); DRT result classes are not covered; 3-4 unmasked + 1-2 masked points",
     },
@@ -52,7 +54,8 @@ CLAIMED = {
                 "(s*w, tau/s) equal those at (w, tau) up to one positive factor per column (least squares and inversion variants, all 24+4 "
                 "option combinations), right-hand sides scale with c or 1/c, |X|-scaled matrices rescale inversely with an invariant right-hand "
                 "side, the circuit of the rescaled variables has the same immittance at the rescaled frequency and time constants scaled by 1/s, "
-                "reversed point order only permutes rows, residuals / Boukamp weights / pseudo chi-squared are invariant.",
+                "reversed point order only permutes rows, residuals / Boukamp weights / pseudo chi-squared are invariant, and so are the pseudo "
+                "chi-squared and residuals reported by the exploratory driver for every test kind in both representations.",
         "design_ref": "DESIGN.md section 4, C09",
         "note": "least-squares equivariance contract for the linear solver; time constants of the rescaled problem assumed tau/s; floats as reals",
     },
@@ -64,9 +67,11 @@ CLAIMED = {
                 "adds gamma*dphi/dln(w) with gamma = -pi/6; _offset_residual gives 0 for every point of weight 0 and weight*(rec+offset-ln|X|)^2 "
                 "otherwise; weights without a positive entry or with a negative one are refused with ZHITError before the minimiser runs; "
                 "_adjust_offset with the minimiser replaced by the weighted least-squares offset scales the reconstruction by c when the data are "
-                "scaled by c.",
+                "scaled by c; the retry loop around quad obtains the integral when quad first demands looser tolerances / more subdivisions "
+                "(IntegrationWarning); the objective handed to the offset minimiser is the weighted sum over all points; the pure-Python smoothers "
+                "(modified sinc, Whittaker-Henderson) leave symbolic linear data a+b*i unchanged (1e-9 relative).",
         "design_ref": "DESIGN.md section 4, C11",
-        "note": "PARTIAL: the smoothing kernels (and that they leave constant/linear data unchanged), _generate_weights, real splines/quadrature "
+        "note": "PARTIAL: the Savitzky-Golay (scipy) and LOWESS (statsmodels) smoothers, _generate_weights, real splines/quadrature "
                 "and the 'few percent' clause for RC/RQ ladders are not claimed; exp/ln/rect are uninterpreted with the functional equations "
                 "instantiated on the terms that occur",
     },
@@ -78,7 +83,9 @@ CLAIMED = {
                 "follow their expression). z3 decides whether a returned value can leave its limits, a fixed parameter can change, a constraint "
                 "expression can fail, the parameter table can disagree with the returned circuit, or the circuit passed in can be modified; a "
                 "start value outside its limits is refused before the optimiser runs; among 3 methods (each succeeding or failing, symbolic "
-                "distinct chi-squared) the successful fit with the smallest pseudo chi-squared is returned, serially and in parallel.",
+                "distinct chi-squared) the successful fit with the smallest pseudo chi-squared is returned, serially and in parallel; exactly the free "
+                "parameters of the circuit passed in are handed to the optimiser as varying (incl. a parameter fixed by default that was made free); "
+                "several methods in one process start from the same values.",
         "design_ref": "DESIGN.md section 4, C12",
         "note": "PARTIAL: recovery of the generating parameters / vanishing chi-squared on noise-free data is optimiser behaviour and is not claimed; "
                 "lmfit is a contract stub; leastsq/boukamp only in the constraint obligations",
@@ -90,9 +97,12 @@ CLAIMED = {
                 "real (minus imaginary) part of a unit RC element at that time constant; _generate_model_impedance equals R_inf + R_pol*A.g in the "
                 "fitted part and copies the other part; through the whole calculate_drt_tr_nnls driver, scaling Z by c leaves the regularised "
                 "system unchanged, scales gamma by c and leaves tau unchanged, scaling f by s scales tau by 1/s and leaves gamma unchanged; gamma >= 0 "
-                "when the polarisation resistance is positive; R_pol > 0 for R0 plus one or two RC elements with positive resistances.",
+                "when the polarisation resistance is positive; R_pol > 0 for R0 plus one or two RC elements with positive resistances; with the "
+                "lambda search replaced by 'evaluate the real objective at two symbolic trial values, return a symbolic lambda' (L-curve and custom "
+                "routes) the result equals the fixed-lambda result; m(RQ)-fit's _calculate_tau_gamma is the sum of each parallel element's own "
+                "distribution (Gaussian at R*C, RQ distribution at (R*Y)^(1/n)) in either order.",
         "design_ref": "DESIGN.md section 4, C13",
-        "note": "PARTIAL: area = resistance and peak positions of an actual NNLS solution, lambda selection, the Loewner method, m(RQ)-fit, BHT and "
+        "note": "PARTIAL: area = resistance and peak positions of an actual NNLS solution, the lambda selection heuristics, the Loewner method, the fitting step of m(RQ)-fit, BHT and "
                 "TR-RBF are not claimed (nnls/SVD/transcendental integrals have no encoding within reach)",
     },
     "C14": {
@@ -116,8 +126,9 @@ CLAIMED = {
                 "path the result is compared with the point-wise series/parallel law written directly over the leaf variables (open branch "
                 "contributes nothing, shorted branch shorts the connection, all-open is open / InfiniteImpedance at the API); equality of the "
                 "complex rational functions is decided by normalisation + z3. Also: array vs one-frequency-at-a-time evaluation, the three "
-                "dispatch branches (element, container, connection), Circuit(Series|Parallel|Element|list). Exhaustive for every nest of "
-                "<=3 (4) leaves, depth <=2 (3), 2 (3) frequencies.",
+                "dispatch branches (element, container, connection), Circuit(Series|Parallel|Element|list); construction routes (objects vs "
+                "CircuitBuilder vs serialise/parse) for a general transmission line with 5 sub-circuit shapes at a symbolic frequency. Exhaustive "
+                "for every nest of <=3 (4) leaves, depth <=2 (3), 2 (3) frequencies.",
         "design_ref": "DESIGN.md section 4, C01",
         "note": "leaves opaque (element formulas are C02); a branch is open at all frequencies or none (mixed: result, if any, must obey the law; "
                 "only InfiniteImpedance may be raised); admittances that cancel exactly are cut away; floats as reals",
@@ -209,9 +220,12 @@ CLAIMED = {
                 "chosen by solver-driven exploration (every arrival order is a path) and whose imap/map keep submission order; worker functions are "
                 "deterministic stubs with symbolic, pairwise distinct pseudo chi-squared values (log monotone). The real collection/selection code "
                 "of perform_zhit (both unordered stages, 4 candidates), fit_circuit (3 methods succeeding or failing) and evaluate_log_F_ext (10 "
-                "evaluations) must return the same winner with the same numbers for every arrival order and for num_procs = 1 vs > 1.",
+                "evaluations) must return the same winner with the same numbers for every arrival order and for num_procs = 1 vs > 1; the real "
+                "_fit_process and the real _adjust_offset run in the calling process vs through a pool that pickles (deep-copies) every task; "
+                "_use_cnls' early stop returns the same fits for every arrival order (13-14 fits, bounded overtaking); _add_noise seeds its "
+                "generator with seed mod 2**32 for every integer seed.",
         "design_ref": "DESIGN.md section 4, C17",
-        "note": "PARTIAL: real process scheduling, BLAS threading and the bit-identity of seeded mock data (numpy RandomState) are not covered; ties "
+        "note": "PARTIAL: real process scheduling, BLAS threading and the bit streams of numpy's RandomState are not covered; ties "
                 "between sort keys are outside the claim",
     },
     "C18": {
@@ -222,10 +236,11 @@ CLAIMED = {
                 "unknown) x interpolation (4+auto+unknown) x window (auto/named/unknown) x custom weights x representation x num_procs x symbolic "
                 "num_points/polynomial_order, and the real evaluate_log_F_ext driver over 7 test kinds (+unknown) x num_RCs x options x "
                 "num_F_ext_evaluations (negative, zero, positive, too few) x limits x located minima, run with their numerical kernels stubbed: "
+                "(c) the real fit_circuit driver over 9 method x 8 weight spellings x num_procs with the worker stubbed; "
                 "an option combination is refused by TypeError/ValueError before the first kernel runs (or by the library's own error type) or "
                 "completes; the progress count never exceeds the precomputed total and every callback fraction lies within [0,1].",
         "design_ref": "DESIGN.md section 4, C18",
-        "note": "numerical kernels replaced by shape-correct stubs (failures inside real numerics are outside); fit_circuit and calculate_drt "
+        "note": "numerical kernels replaced by shape-correct stubs (failures inside real numerics are outside); the calculate_drt "
                 "drivers are not covered; option products are enumerated by solver-driven choices (bounded exhaustive), only the lemma is fully symbolic",
     },
     "C19": {
@@ -236,9 +251,11 @@ CLAIMED = {
                 "and the float/int keyword arguments written in the specifier, and refuse a non-numeral value (ValueError) or an undocumented keyword "
                 "(KeyError). 'parse': the real cli.parse.command + apply_filters on symbolic spectra with symbolic low-/high-pass cut-offs and every set of "
                 "excluded indices: the table handed to the formatter holds exactly the points the API sequence low_pass/high_pass/set_mask leaves "
-                "unmasked, with the API's numbers; an empty selection is refused.",
+                "unmasked, with the API's numbers; an empty selection is refused. 'fit' and 'drt --plot-overlay': with fit_circuit / calculate_drt "
+                "replaced by recorders, every call (refinements included) carries the command-line settings (symbolic max_nfev, num_procs, timeout, "
+                "lambda, threshold), refinements chain on the previous result, and the tables printed for a spectrum come from its own / the final result.",
         "design_ref": "DESIGN.md section 4, C19",
-        "note": "PARTIAL: text formatting (pandas), argparse, files, matplotlib and the commands circuit --simulate / fit / drt / test / zhit are outside; "
+        "note": "PARTIAL: text formatting (pandas), argparse, files, matplotlib, the numerical pipelines and the commands circuit --simulate / test / zhit / drt without overlay are outside; "
                 "numerals are uninterpreted numbers whose syntax is decided exactly on the symbolic characters",
     },
     "C20": {
